@@ -39,6 +39,7 @@ type vcgen struct {
 	phiDepth           int
 	phiDone            map[*ssa.Phi]bool
 	phiGuardDepth      int
+	fieldCanon         map[string]ssa.Value // (parameter, field path) -> the first Field instruction met for it
 }
 
 func newVC() *vcgen {
@@ -98,7 +99,66 @@ func (g *vcgen) variant(v ssa.Value) bool {
 	return !(b != g.loopHead && b.Dominates(g.loopHead))
 }
 
+// canon: two `f.width` expressions on a by-value parameter are two Field instructions of one immutable value — one atom
+func (g *vcgen) canon(v ssa.Value) ssa.Value {
+	if ld, ok := v.(*ssa.UnOp); ok && ld.Op == token.MUL {
+		// a field read through the local slot a by-value parameter was spilled into, when that slot is never written again
+		// and its address goes nowhere: the parameter's field
+		path := ""
+		var cur ssa.Value = ld.X
+		for i := 0; i < 6; i++ {
+			fa, ok := cur.(*ssa.FieldAddr)
+			if !ok {
+				break
+			}
+			path = fmt.Sprintf(".%d", fa.Field) + path
+			cur = fa.X
+		}
+		if al, ok := cur.(*ssa.Alloc); ok && path != "" {
+			if p := spilledParam(al); p != nil && readOnlySlot(al) {
+				key := fmt.Sprintf("%p%s", p, path)
+				if g.fieldCanon == nil {
+					g.fieldCanon = map[string]ssa.Value{}
+				}
+				if c, ok := g.fieldCanon[key]; ok {
+					return c
+				}
+				g.fieldCanon[key] = v
+			}
+		}
+		return v
+	}
+	fl, ok := v.(*ssa.Field)
+	if !ok {
+		return v
+	}
+	path := ""
+	var cur ssa.Value = fl
+	for i := 0; i < 6; i++ {
+		f2, ok := cur.(*ssa.Field)
+		if !ok {
+			break
+		}
+		path = fmt.Sprintf(".%d", f2.Field) + path
+		cur = f2.X
+	}
+	p, ok := cur.(*ssa.Parameter)
+	if !ok {
+		return v
+	}
+	key := fmt.Sprintf("%p%s", p, path)
+	if g.fieldCanon == nil {
+		g.fieldCanon = map[string]ssa.Value{}
+	}
+	if c, ok := g.fieldCanon[key]; ok {
+		return c
+	}
+	g.fieldCanon[key] = v
+	return v
+}
+
 func (g *vcgen) atom(v ssa.Value) string {
+	v = g.canon(v)
 	names := g.names
 	if g.variant(v) {
 		names = g.overN
@@ -307,6 +367,23 @@ func (g *vcgen) lin(v ssa.Value) string {
 			g.hyp(a + " ≤ " + g.lenOf(x.Call.Args[1]))
 			return a
 		}
+		// sort.Search(n, f) ∈ 0..n; sort.SearchStrings / SearchInts(a, x) ∈ 0..len(a); slices.BinarySearch*(a, x) ∈ 0..len(a)
+		if f := x.Call.StaticCallee(); f != nil && f.Pkg != nil && len(x.Call.Args) >= 2 {
+			if isInt, _, _ := intInfo(x.Type()); isInt {
+				switch {
+				case f.Pkg.Pkg.Path() == "sort" && f.Name() == "Search":
+					a := g.atom(v)
+					g.hyp("0 ≤ " + a)
+					g.hyp(a + " ≤ " + g.lin(x.Call.Args[0]))
+					return a
+				case f.Pkg.Pkg.Path() == "sort" && (f.Name() == "SearchStrings" || f.Name() == "SearchInts" || f.Name() == "SearchFloat64s"):
+					a := g.atom(v)
+					g.hyp("0 ≤ " + a)
+					g.hyp(a + " ≤ " + g.lenOf(x.Call.Args[0]))
+					return a
+				}
+			}
+		}
 		// strings.IndexByte / Index / LastIndex… and the bytes equivalents: -1, or a position inside the first argument
 		if f := x.Call.StaticCallee(); f != nil && f.Pkg != nil && (f.Pkg.Pkg.Path() == "strings" || f.Pkg.Pkg.Path() == "bytes") && len(x.Call.Args) >= 2 {
 			switch f.Name() {
@@ -382,6 +459,15 @@ func (g *vcgen) lin(v ssa.Value) string {
 					if (bo.Op == token.ADD) == (c > 0) && c != 0 {
 						up = true
 					} else if c != 0 {
+						down = true
+					}
+					continue
+				}
+				if nonNegative(bo.Y) {
+					// size += len(field) / size += table[i].width (a table of non-negative constants)
+					if bo.Op == token.ADD {
+						up = true
+					} else {
 						down = true
 					}
 					continue
@@ -502,6 +588,7 @@ func arrayLen(t types.Type) (int64, bool) {
 }
 
 func (g *vcgen) lenOf(v ssa.Value) string {
+	v = g.canon(v)
 	if n, ok := arrayLen(v.Type()); ok {
 		return lit(n)
 	}
@@ -565,6 +652,7 @@ func (g *vcgen) lenOf(v ssa.Value) string {
 }
 
 func (g *vcgen) capOf(v ssa.Value) string {
+	v = g.canon(v)
 	if n, ok := arrayLen(v.Type()); ok {
 		return lit(n)
 	}
@@ -655,6 +743,19 @@ func (g *vcgen) guards(b *ssa.BasicBlock) {
 							h = "¬(" + h + ")"
 						}
 						g.hyp(h)
+					}
+				}
+				// s == "" / s != "": a statement about len(s)
+				if bo.Op == token.EQL || bo.Op == token.NEQ {
+					for _, pr := range [][2]ssa.Value{{bo.X, bo.Y}, {bo.Y, bo.X}} {
+						if c, isC := pr[1].(*ssa.Const); isC && c.Value != nil && c.Value.Kind() == constant.String && constant.StringVal(c.Value) == "" {
+							empty := (bo.Op == token.EQL) == (pol > 0)
+							if empty {
+								g.hyp(g.lenOf(pr[0]) + " = 0")
+							} else {
+								g.hyp("1 ≤ " + g.lenOf(pr[0]))
+							}
+						}
 					}
 				}
 			}
@@ -903,6 +1004,46 @@ func valueRange(v ssa.Value, rest string) (lo, hi int64, hiKnown bool, ok bool) 
 				return 0, 0, false, false
 			}
 			return tableRange(x.X, rest)
+		case *ssa.Parameter:
+			// an aggregate passed by value to an internal function / method: whatever its call sites pass
+			fn := x.Parent()
+			if fn == nil || fn.Parent() != nil || token.IsExported(fn.Name()) || vcValueUse[fn] || len(vcCallers[fn]) == 0 || tableDepth >= 4 {
+				return 0, 0, false, false
+			}
+			ix := -1
+			for k, p := range fn.Params {
+				if p == x {
+					ix = k
+				}
+			}
+			if ix < 0 {
+				return 0, 0, false, false
+			}
+			seen := false
+			hiKnown = true
+			for _, ci := range vcCallers[fn] {
+				args := ci.Common().Args
+				if ix >= len(args) {
+					return 0, 0, false, false
+				}
+				tableDepth++
+				l2, h2, hk2, ok2 := valueRange(args[ix], rest)
+				tableDepth--
+				if !ok2 {
+					return 0, 0, false, false
+				}
+				if !seen || l2 < lo {
+					lo = l2
+				}
+				if !seen || h2 > hi {
+					hi = h2
+				}
+				if !hk2 {
+					hiKnown = false
+				}
+				seen = true
+			}
+			return lo, hi, hiKnown, seen
 		case *ssa.Index:
 			v = x.X // an element of an array value: any element
 		case *ssa.Field:
@@ -1053,4 +1194,70 @@ func tableRange(addr ssa.Value, extra string) (lo, hi int64, hiKnown bool, ok bo
 		hi = 0
 	}
 	return lo, hi, hiKnown, true
+}
+
+
+// nonNegative: len / cap, an unsigned value widened losslessly, or a value from a table of non-negative constants
+func nonNegative(v ssa.Value) bool {
+	switch x := v.(type) {
+	case *ssa.Call:
+		if b, ok := x.Call.Value.(*ssa.Builtin); ok && (b.Name() == "len" || b.Name() == "cap") {
+			return true
+		}
+	case *ssa.Convert:
+		si, su, sb := intInfo(x.X.Type())
+		di, _, db := intInfo(x.Type())
+		if si && di && su && sb < db {
+			return true
+		}
+	case *ssa.UnOp:
+		if x.Op == token.MUL {
+			if lo, _, _, ok := tableRange(x.X, ""); ok && lo >= 0 {
+				return true
+			}
+		}
+	case *ssa.Field:
+		if lo, _, _, ok := valueRange(x, ""); ok && lo >= 0 {
+			return true
+		}
+	}
+	return false
+}
+
+
+// readOnlySlot: the local slot is written once (the parameter spill) and only read through field addresses afterwards
+func readOnlySlot(al *ssa.Alloc) bool {
+	if al.Referrers() == nil {
+		return false
+	}
+	stores := 0
+	var ok func(v ssa.Value, top bool, depth int) bool
+	ok = func(v ssa.Value, top bool, depth int) bool {
+		refs := v.Referrers()
+		if refs == nil || depth > 6 {
+			return depth <= 6
+		}
+		for _, r := range *refs {
+			switch y := r.(type) {
+			case *ssa.FieldAddr:
+				if !ok(y, false, depth+1) {
+					return false
+				}
+			case *ssa.UnOp:
+				if y.Op != token.MUL {
+					return false
+				}
+			case *ssa.Store:
+				if !top || y.Addr != v {
+					return false
+				}
+				stores++
+			case *ssa.DebugRef:
+			default:
+				return false
+			}
+		}
+		return true
+	}
+	return ok(al, true, 0) && stores == 1
 }
